@@ -45,3 +45,49 @@ func TestTiming(t *testing.T) {
 	})
 	fmt.Printf("E rows %d, %.3f ms per judged case\n", n, float64(time.Since(t0).Microseconds())/1000/float64(n/50))
 }
+
+// TestReferenceDocsExample checks the reference against the worked example of
+// Helm's chart documentation ("Tags and Condition fields in dependencies").
+func TestReferenceDocsExample(t *testing.T) {
+	mk := func(user map[string]any) *model {
+		root := &ChartDef{Name: "parentchart",
+			Defaults: map[string]any{"subchart1": map[string]any{"enabled": true}, "tags": map[string]any{"front-end": false, "back-end": true}},
+			Deps: []DepDef{
+				{Name: "subchart1", Condition: "subchart1.enabled,global.subchart1.enabled", Tags: []string{"front-end", "subchart1"}},
+				{Name: "subchart2", Condition: "subchart2.enabled,global.subchart2.enabled", Tags: []string{"back-end", "subchart2"}},
+			},
+			Subs: []*ChartDef{leaf("subchart1"), leaf("subchart2")}}
+		return reference(&Case{Root: root, User: user})
+	}
+	m := mk(nil)
+	if !m.live[m.root.kids[0]] || !m.live[m.root.kids[1]] {
+		t.Errorf("docs: both subcharts enabled (condition beats front-end=false; back-end=true): got %v %v", m.live[m.root.kids[0]], m.live[m.root.kids[1]])
+	}
+	m = mk(map[string]any{"tags": map[string]any{"front-end": true}, "subchart2": map[string]any{"enabled": false}})
+	if !m.live[m.root.kids[0]] || m.live[m.root.kids[1]] {
+		t.Errorf("docs: --set tags.front-end=true --set subchart2.enabled=false => subchart1 on, subchart2 off: got %v %v", m.live[m.root.kids[0]], m.live[m.root.kids[1]])
+	}
+	// global flow of the docs ("Global Values"): set at the top, seen by every descendant, not flowing upward
+	c := &ChartDef{Name: "C", Defaults: map[string]any{"global": map[string]any{"fromC": 1.0}}}
+	a := &ChartDef{Name: "A", Deps: []DepDef{{Name: "C"}}, Subs: []*ChartDef{c}}
+	m = reference(&Case{Root: &ChartDef{Name: "P", Deps: []DepDef{{Name: "A"}}, Subs: []*ChartDef{a}}, User: map[string]any{"global": map[string]any{"app": "MyWordPress"}}})
+	if js(m.views[m.root.kids[0].kids[0]]) != `{"global":{"app":"MyWordPress","fromC":1}}` || js(m.views[m.root.kids[0]]["global"]) != `{"app":"MyWordPress"}` {
+		t.Errorf("global flow: C sees %s, A sees %s", js(m.views[m.root.kids[0].kids[0]]), js(m.views[m.root.kids[0]]))
+	}
+}
+
+func TestCountE(t *testing.T) {
+	for _, th := range []bool{false, true} {
+		total := 0
+		for _, tr := range trees() {
+			if (tr.thoroughOnly || tr.noQuickE) && !th {
+				continue
+			}
+			n := 0
+			enumE(tr, tr.full || (th && !tr.noQuickE), func(eSpec) { n++ })
+			fmt.Println(th, tr.ID, n)
+			total += n
+		}
+		fmt.Println("thorough", th, "E total", total)
+	}
+}
